@@ -270,6 +270,16 @@ instance instFloatSpecR64 : FloatSpec R64 where
       simpa using this
     have : (5:ℝ) / 10 ^ 16 + 2 / 10 ^ 16 ≤ 1 / 10 ^ 15 := by norm_num
     linarith⟩
+  atan2_neg_axis := fun {y x} _ _ hy hx => by
+    show piR - 1 / 10 ^ 15 ≤ |R53.rnd (clampR piR (Complex.arg ⟨x.v, y.v⟩))|
+    have : (⟨x.v, y.v⟩ : ℂ) = ((x.v : ℝ) : ℂ) := by apply Complex.ext <;> simp [show y.v = 0 from hy]
+    rw [this, Complex.arg_ofReal_of_neg (show x.v < 0 from hx)]
+    have hc : clampR piR Real.pi = piR := by
+      unfold clampR
+      rw [min_eq_left piR_le, max_eq_right (by have := piR_pos; linarith)]
+    rw [hc, R53.rnd_rep rep_piR, abs_of_pos piR_pos]
+    have : (0:ℝ) ≤ 1 / 10 ^ 15 := by positivity
+    linarith
   acos_spec := fun {a} _ _ => ⟨trivial, by
       show 0 ≤ R53.rnd (clampR piR (Real.arccos a.v))
       apply R53.rnd_nonneg
